@@ -1,0 +1,15 @@
+//go:build verif
+
+package sfnt
+
+import (
+	"seehuhn.de/go/postscript/funit"
+
+	"seehuhn.de/go/sfnt/glyph"
+)
+
+// VerifC12BGlyphHeight exposes the unexported glyphHeight (the query behind
+// the cap-height / x-height fallback of Read) to the C12B harness.
+func (f *Font) VerifC12BGlyphHeight(gid glyph.ID) funit.Int16 {
+	return f.glyphHeight(gid)
+}
